@@ -24,6 +24,19 @@ class MemFS:
         self.on_crash = on_crash
         self.history = []        # durable content of every path after every mutating op
         self.modes = {}          # path -> permission bits set with chmod (the process is not root)
+        # path -> target: the path is a symbolic link to a regular file.  The content is kept under the
+        # link's own path (reading and writing go through a link); the target's path is an alias of
+        # it.  Removing or renaming over the link makes the path an ordinary file again.
+        self.links = {}
+
+    def canon(self, path):
+        for link, target in self.links.items():
+            if path == target:
+                return link
+        return path
+
+    def unlink_link(self, path):
+        self.links.pop(path, None)
 
     # -- fault points ------------------------------------------------------
     def point(self, op, path):
@@ -48,6 +61,7 @@ class MemFS:
 
     # -- API used through module globals of the code under test ---------------
     def isfile(self, path):
+        path = self.canon(path)
         r = self.point("isfile", path)
         if r == "fail":
             raise OSError("isfile failed")
@@ -60,6 +74,7 @@ class MemFS:
         return path not in self.modes or bool(self.modes[path] & 0o200)
 
     def open(self, path, mode="r", *a, **k):
+        path = self.canon(path)
         if ("a" in mode or "w" in mode or "+" in mode) and path in self.files and not self.writable(path):
             raise PermissionError(13, "Permission denied", path)
         if "r" in mode and "+" not in mode and path in self.files and path in self.modes \
@@ -229,7 +244,13 @@ class FakeOsPath:
         return self.fs.isfile(path)
 
     def exists(self, path):
-        return path in self.fs.files
+        return self.fs.canon(path) in self.fs.files
+
+    def islink(self, path):
+        return path in self.fs.links and path in self.fs.files
+
+    def realpath(self, path, **k):
+        return self.fs.links.get(path, path) if path in self.fs.files else path
 
     def __getattr__(self, name):
         import os
@@ -245,9 +266,11 @@ class FakeOs:
         self.environ = environ if environ is not None else {}
 
     def remove(self, path):
+        path = self.fs.canon(path)
         if path not in self.fs.files:
             raise FileNotFoundError(path)
         del self.fs.files[path]
+        self.fs.unlink_link(path)
         self.fs.modes.pop(path, None)
         self.fs.history.append((path, None))
 
@@ -273,10 +296,19 @@ class FakeOs:
         return getattr(os, name)
 
     def rename(self, src, dst):
+        src = self.fs.canon(src)
         if src not in self.fs.files:
             raise FileNotFoundError(src)
         self.fs.files[dst] = self.fs.files.pop(src)
+        self.fs.unlink_link(dst)          # the link itself is replaced by what was moved over it
+        if src in self.fs.links:
+            self.fs.links[dst] = self.fs.links.pop(src)
         self.fs.history.append((src, None))
+
+    def readlink(self, path, **k):
+        if path in self.fs.links and path in self.fs.files:
+            return self.fs.links[path]
+        raise OSError(22, "Invalid argument", path)
 
     replace = rename
 
@@ -327,13 +359,16 @@ class GlobalRoute:
         patch(builtins, "open", opener)
         patch(io, "open", opener)
 
-        def stat_(real):
+        def stat_(real, follow=True):
             def stat(path, *a, **k):
                 r = route(path) if not isinstance(path, int) else None
                 if r is None:
                     return real(path, *a, **k)
                 if fs.dead:
                     raise Crash()
+                if not follow and r in fs.links and r in fs.files:
+                    return os.stat_result((_stat.S_IFLNK | 0o777, 1, 1, 1, 0, 0, len(fs.links[r]), 0, 0, 0))
+                r = fs.canon(r)
                 if r in fs.files:
                     return os.stat_result((_stat.S_IFREG | fs.modes.get(r, 0o600), 1, 1, 1, 0, 0, len(fs.files[r]), 0, 0, 0))
                 if r.rstrip("/") == self.prefix.rstrip("/"):
@@ -341,7 +376,7 @@ class GlobalRoute:
                 raise FileNotFoundError(2, "No such file or directory", r)
             return stat
         patch(os, "stat", stat_)
-        patch(os, "lstat", stat_)
+        patch(os, "lstat", lambda real: stat_(real, follow=False))
 
         def one(fake):
             def make(real):
@@ -360,6 +395,7 @@ class GlobalRoute:
             return make
         for n in ("remove", "unlink"):
             patch(os, n, one(fos.remove))
+        patch(os, "readlink", one(fos.readlink))
 
         def chmod_(real):
             def chmod(path, mode, *a, **k):
